@@ -49,6 +49,22 @@ func RunSelftest(verifDir, repoDir, prop string, vpBin string) int {
 	defer os.RemoveAll(scratchRoot)
 	var results []MutantResult
 	survivors := 0
+	// the unmodified tree must pass, otherwise a kill means nothing
+	props := map[string]bool{}
+	for _, p := range patches {
+		props[filepath.Base(filepath.Dir(p))] = true
+	}
+	for mp := range props {
+		outDir := filepath.Join(scratchRoot, "out-base")
+		os.MkdirAll(outDir, 0o755)
+		c := exec.Command(vpBin, "check", mp, "--tier", "quick", "--out", outDir)
+		c.Env = append(os.Environ(), "VERIF_REPO="+repoDir, "VERIF_DIR="+verifDir, "VP_SCRATCH="+filepath.Join(scratchRoot, "q"))
+		if out, err := c.CombinedOutput(); err != nil {
+			fmt.Printf("selftest: baseline check %s does not pass on the unmodified tree:\n%s\n", mp, tail(string(out), 1500))
+			return 2
+		}
+		os.RemoveAll(outDir)
+	}
 	for _, p := range patches {
 		mp := filepath.Base(filepath.Dir(p))
 		name := strings.TrimSuffix(filepath.Base(p), ".patch")
